@@ -156,7 +156,13 @@ func planCase(ctx *Ctx, s *schema.Schema, tg planTarget, x reflect.Value, confor
 		arg = x.Interface()
 	}
 	impl, b := marshalGuard(arg, tg.tag)
-	ctx.Add(line, impl, true, "C01,C03,C05,C06,C14")
+	// C01 speaks about well-formed messages: the encoding of a value that is NOT well-formed at its own version
+	// (the ungated C05 messages) is C05's, C03's and C06's business, not a C01 alarm
+	encProps := "C01,C03,C05,C06,C14"
+	if !conforming {
+		encProps = "C03,C05,C06,C14"
+	}
+	ctx.Add(line, impl, true, encProps)
 	if b != nil {
 		planEncoderHygiene(ctx, s, tg, x, val, b, conforming, line)
 		// ---- C03 oracle on typed output (KMIP messages, payloads, objects, attribute values; bit masks only
